@@ -361,7 +361,7 @@ def _is_versioned_type_dir(type_path, type_name):
         r"^" + re.escape(type_name) +
         r"--[0-9a-f]{8}-[0-9a-f]{4}-[0-9a-f]{4}-[0-9a-f]{4}"
         r"-[0-9a-f]{12}$",
-        re.I,
+        re.I | re.A,
     )
 
     for entry in os.listdir(type_path):
